@@ -11,8 +11,9 @@ from core import exact
 from core.exact import fr, tok, Tokens
 
 DT01 = exact.dt_tok(0.1)
-BIN = ("add", "sub", "mul", "div", "append")
-LEAVES = ("F", "S", "A", "LT", "LS")
+BIN = ("add", "sub", "mul", "div", "append", "iadd", "isub", "imul", "idiv")
+AUG = {"iadd": "add", "isub": "sub", "imul": "mul", "idiv": "div"}
+LEAVES = ("F", "S", "A", "LT", "LS", "R")
 TAU = Fraction(1, 10 ** 9)          # regime T, well-conditioned
 TAU_LOOSE = Fraction(1, 10 ** 5)    # regime T, conditioning guard not met
 TAU_SPLINE = Fraction(1, 10 ** 7)   # interpolating FRD evaluated at its own knots
@@ -25,6 +26,12 @@ TAU_SPLINE = Fraction(1, 10 ** 7)   # interpolating FRD evaluated at its own kno
 #   ["LT", p, m, dt, [[num, den]...]]
 #   ["LS", ns, p, m, dt, A, B, C, D]
 #   ["neg", x] ["pow", k, x] ["fb", sign, via, x, y] ["sel", rows, cols, x] [binop, x, y]
+#   [iop, x, y]   iop: iadd | isub | imul | idiv = `x op= y` on a temporary x (model: the plain operator)
+#
+# history case = {"hist": {"objs": [{"leaf": leaf, "copy_of": None | i}...], "steps": [{"tree", "eval"}...]}}
+#   the objects are made ONCE (object i; "copy_of": through the copy constructor FRD(obj_i)) and the
+#   steps run in order on the live objects; a step names object i by the leaf ["R", i]; the FRD
+#   returned by step j (0-based, no eval) is object len(objs) + j.
 # ----------------------------------------------------------------------------
 
 
@@ -61,6 +68,10 @@ def flatten(t):
     if k == "LS":
         _, ns, p, m, dt, A, B, C, D = t
         return "LS %d %d %d %s %s" % (ns, p, m, dt, " ".join(A + B + C + D))
+    if k == "R":
+        return "R %d" % t[1]
+    if k in AUG:
+        return flatten(t[1]) + " " + flatten(t[2]) + " " + AUG[k]
     if k == "neg":
         return flatten(t[1]) + " neg"
     if k == "pow":
@@ -103,15 +114,30 @@ def xcost(t):
     k = t[0]
     if k in LEAVES:
         return 1
-    f = 600 if k == "fb" else 3 if k == "mul" else 3 ** min(abs(t[1]), 9) if k == "pow" else 1
+    f = 600 if k == "fb" else 3 if k in ("mul", "imul") else 3 ** min(abs(t[1]), 9) if k == "pow" else 1
     return f * sum(xcost(t[i]) for i in children(t))
 
 
 def tf_left_div(t):
     """the tree contains `TransferFunction / x`"""
-    if t[0] == "div" and t[1][0] == "LT":
+    if t[0] in ("div", "idiv") and t[1][0] == "LT":
         return True
     return any(tf_left_div(t[i]) for i in children(t))
+
+
+def inexact_divisor(t):
+    """some divisor of the tree is itself computed with rounding (feedback, division, an LTI
+    response): where its exact value is 0 the floating-point value is a rounding residue, so the
+    implementation cannot be required to notice the division by zero"""
+    def rounded(x):
+        return any(o in ("div", "idiv", "fb", "pow-") for o in ops_in(x)) or \
+            any(l[0] in ("LT", "LS") for l in leaves(x))
+    k = t[0]
+    if k in ("div", "idiv") and rounded(t[2]):
+        return True
+    if k == "pow" and t[1] < 0 and rounded(t[2]):
+        return True
+    return any(inexact_divisor(t[i]) for i in children(t))
 
 
 def dt_value(tokn):
@@ -145,7 +171,10 @@ def grid_kind(t):
 def expj_table(t):
     """NumPy's exp(1j*omega*dt) for every discrete LTI leaf on every grid of the tree, computed the
     way `_convert_to_frd` computes it (external routine: its values are given to the model)."""
-    ls = leaves(t)
+    return expj_from_leaves(leaves(t))
+
+
+def expj_from_leaves(ls):
     hs = set()
     for l in ls:
         if l[0] in ("LT", "LS"):
@@ -185,7 +214,9 @@ def num_value(re_, im_, kind):
     return float(re_)
 
 
-def build_frd(t):
+def build_frd(t, omega=None, keep=None):
+    """`omega`: a caller-owned frequency array shared by several objects; `keep`: list that
+    receives (user array, pristine copy) for every array handed to the constructor"""
     _, p, m, sm, dt, ws, data = t
     n = len(ws)
     arr = np.zeros((p, m, n), dtype=complex)
@@ -195,10 +226,13 @@ def build_frd(t):
             for j in range(m):
                 a, b = next(it)
                 arr[i, j, k] = complex(float(Fraction(a)), float(Fraction(b)))
-    omega = np.array([float(Fraction(w)) for w in ws])
+    if omega is None:
+        omega = np.array([float(Fraction(w)) for w in ws])
     kw = {"smooth": True} if sm else {}
     if p == 1 and m == 1 and n % 2 == 0:
         arr = arr[0, 0, :]          # the 1-D constructor form
+    if keep is not None:
+        keep.append((arr, arr.copy()))
     if dt == "C":
         return ct.frd(arr, omega, **kw)
     return ct.frd(arr, omega, dt_value(dt), **kw)
@@ -212,16 +246,33 @@ class NonFinite(Exception):
     """an intermediate FRD holds inf/nan (NumPy's answer to a division by zero on the grid)"""
 
 
-def run_tree(t):
-    r = run_node(t)
+class SkipStep(Exception):
+    """the step names an object that does not exist (the step that would have made it raised)"""
+
+
+def refs_in(t, acc=None):
+    acc = [] if acc is None else acc
+    if t[0] == "R":
+        acc.append(t[1])
+    for i in children(t):
+        refs_in(t[i], acc)
+    return acc
+
+
+def run_tree(t, env=None):
+    r = run_node(t, env)
     if isinstance(r, ct.FrequencyResponseData) and not np.all(np.isfinite(r.frdata)):
         # later operators can hide it again (x ** 0, indexing), the model reports the division
         raise NonFinite()
     return r
 
 
-def run_node(t):
+def run_node(t, env=None):
     k = t[0]
+    if k == "R":
+        if env is None or env[t[1]] is None:
+            raise SkipStep()
+        return env[t[1]]
     if k == "F":
         return build_frd(t)
     if k == "S":
@@ -240,19 +291,31 @@ def run_node(t):
         _, ns, p, m, dt, A, B, C, D = t
         return ct.StateSpace(mat(A, ns, ns), mat(B, ns, m), mat(C, p, ns), mat(D, p, m), dt_value(dt))
     if k == "neg":
-        return -run_tree(t[1])
+        return -run_tree(t[1], env)
     if k == "pow":
-        return run_tree(t[2]) ** t[1]
+        return run_tree(t[2], env) ** t[1]
     if k == "fb":
-        a, b = run_tree(t[3]), run_tree(t[4])
+        a, b = run_tree(t[3], env), run_tree(t[4], env)
         s = Fraction(t[1])
         sign = int(s) if s.denominator == 1 else float(s)
         if t[2] == "func":
             return ct.feedback(a, b, sign)
         return a.feedback(b, sign)
     if k == "sel":
-        return run_tree(t[3])[t[1], t[2]]
-    a, b = run_tree(t[1]), run_tree(t[2])
+        return run_tree(t[3], env)[t[1], t[2]]
+    a, b = run_tree(t[1], env), run_tree(t[2], env)
+    if k == "iadd":
+        a += b
+        return a
+    if k == "isub":
+        a -= b
+        return a
+    if k == "imul":
+        a *= b
+        return a
+    if k == "idiv":
+        a /= b
+        return a
     if k == "add":
         return a + b
     if k == "sub":
@@ -308,9 +371,102 @@ def norm_msg(msg):
     return re.sub(r"[0-9]+", "#", msg.strip())[:70]
 
 
+
+# ---- histories --------------------------------------------------------------
+def freeze(x):
+    """everything the property lets an operator call READ of an operand, as comparable bytes:
+    [(component name, value)...]"""
+    if isinstance(x, ct.FrequencyResponseData):
+        return [("frdata", (x.frdata.shape, str(x.frdata.dtype), x.frdata.tobytes())),
+                ("omega", (x.omega.shape, str(x.omega.dtype), x.omega.tobytes())),
+                ("smooth", x._ifunc is not None),
+                ("shape", (x.noutputs, x.ninputs))]
+    if isinstance(x, ct.TransferFunction):
+        def cells(a):
+            return tuple(tuple((np.asarray(c).dtype.str, np.asarray(c).tobytes()) for c in row) for row in a)
+        return [("num", cells(x.num_array if hasattr(x, "num_array") else x.num)),
+                ("den", cells(x.den_array if hasattr(x, "den_array") else x.den)),
+                ("shape", (x.noutputs, x.ninputs))]
+    if isinstance(x, ct.StateSpace):
+        return [(nm, (np.asarray(getattr(x, nm)).shape, np.asarray(getattr(x, nm)).tobytes()))
+                for nm in ("A", "B", "C", "D")] + [("shape", (x.noutputs, x.ninputs))]
+    if isinstance(x, np.ndarray):
+        return [("array", (x.shape, str(x.dtype), x.tobytes()))]
+    return [("scalar", (type(x).__name__, repr(x)))]
+
+
+def first_change(before, now):
+    for (nm, a), (_, b) in zip(before, now):
+        if a != b:
+            return nm
+    return None
+
+
+def resolve(t, objs, steps, depth=0):
+    """the step's tree with every object name replaced by what made the object: the leaf of a
+    created object, the (resolved) tree of the step that returned it"""
+    if t[0] == "R":
+        i = t[1]
+        if i < len(objs):
+            l = objs[i]["leaf"]
+            if objs[i].get("copy_of") is not None:      # FRD(obj): same data, no interpolation
+                l = ["F", l[1], l[2], 0] + list(l[4:])
+            return l
+        return resolve(steps[i - len(objs)]["tree"], objs, steps, depth + 1)
+    if t[0] in LEAVES:
+        return t
+    t2 = list(t)
+    for i in children(t):
+        t2[i] = resolve(t[i], objs, steps, depth)
+    return t2
+
+
+def deps_of(j, h, memo):
+    """indices of the steps whose results step j (transitively) reads"""
+    if j not in memo:
+        memo[j] = set()
+        nobj = len(h["objs"])
+        for i in refs_in(h["steps"][j]["tree"]):
+            if i >= nobj:
+                memo[j] |= {i - nobj} | deps_of(i - nobj, h, memo)
+    return memo[j]
+
+
+def map_tree(t, f):
+    """rebuild with f applied to every leaf"""
+    if t[0] in LEAVES:
+        return f(t)
+    t2 = list(t)
+    for i in children(t):
+        t2[i] = map_tree(t[i], f)
+    return t2
+
+
+def canon_step(sp):
+    t = sp["tree"]
+
+    def show(t):
+        k = t[0]
+        if k == "R":
+            return "obj%d" % t[1]
+        if k in LEAVES:
+            return {"F": "frd", "S": "scalar", "A": "array", "LT": "tf", "LS": "ss"}[k]
+        if k == "pow":
+            return "%s**%d" % (show(t[2]), t[1])
+        if k == "fb":
+            return "feedback(%s, %s, %s)" % (show(t[3]), show(t[4]), t[1])
+        if k == "sel":
+            return "%s[%s,%s]" % (show(t[3]), t[1], t[2])
+        if k == "neg":
+            return "-" + show(t[1])
+        return "%s(%s, %s)" % (k, show(t[1]), show(t[2]))
+    return show(t) + (".eval" if sp.get("eval") else "")
+
+
 class C09(Family):
     prop = "C09"
-    extra_modules = ["CtrlVerif.Props.C09Tree"]      # tree theorem over run-time shapes
+    # tree theorem over run-time shapes; histories over live objects
+    extra_modules = ["CtrlVerif.Props.C09Tree", "CtrlVerif.Props.C09Hist"]
     externals = ["numpy.linalg.inv (exact counterpart det^-1 * adjugate in the model, validated by the same runs)",
                  "numpy.exp(1j*omega*dt) for discrete-time LTI operands (values supplied to the model)",
                  "scipy.interpolate.splprep/splev (only its interpolation property at the knots is used)"]
@@ -320,15 +476,25 @@ class C09(Family):
         "otherwise values are compared to a relative tolerance of 1e-9 (1e-5 when the model's "
         "conditioning proxy max|entry|/min|nonzero entry| over all intermediates exceeds 2^12)",
         "timebases are not compared (C05); all operands of one tree share a timebase",
-        "evaluation of an interpolating FRD between grid points is outside the claim"]
+        "evaluation of an interpolating FRD between grid points is outside the claim",
+        "histories: an operator call (also eval / __call__) must leave every FRD, array, TransferFunction and "
+        "StateSpace object it is given bit-identical (frdata, omega, interpolation flag, shape; num/den; "
+        "A,B,C,D); `x op= y` is only exercised on a temporary x, so an in-place __iadd__ would not be an alarm"]
     rule = ("random expression trees (depth <= 3 quick, <= 4 thorough) over FRD leaves of shapes {1,2,3}^2 on "
             "grids of 1-6 rational frequencies with Gaussian-integer/dyadic data, operands FRD / "
             "TransferFunction / StateSpace (continuous and discrete) / Python and NumPy real and complex "
             "scalars / arrays on either side, feedback with both signs through the method and "
             "control.feedback, eval/__call__ requests in permuted order with repeats and missing "
             "frequencies, plus streams for unsorted grids, grid mismatch, singular loops and zero "
-            "divisors; a case is non-trivial when it has an FRD leaf with non-constant data, at least one "
-            "binary operator or feedback or an eval request, and the model result is not an error; "
+            "divisors; plus HISTORIES (160 quick / 1600 thorough): 3-13 live objects made once (FRD objects of "
+            "related shapes sharing one caller-owned omega array, copy-constructed FRDs, arrays, TF/SS systems) "
+            "and 3-7 operator calls on them - the same object on either side, on both sides of one call, as "
+            "feedback path with either sign, calls repeated verbatim or with another sign, results of earlier "
+            "calls as operands, eval requests and op= on temporaries in between - every step compared with "
+            "the model and every live object (and constructor argument) byte-compared with its creation "
+            "snapshot after every call; a case is non-trivial when it has an FRD leaf with non-constant data, at least one "
+            "binary operator or feedback or an eval request, and the model result is not an error (a history: "
+            "some object is named at least twice and a call with a binary operator or feedback returns); "
             "distinct = distinct canonical serialisation")
 
     # ---- generation -------------------------------------------------------
@@ -348,6 +514,9 @@ class C09(Family):
 
     def frd_leaf(self, rng, shape, st):
         p, m = shape
+        pool = st.get("pool")
+        if pool and pool.get(shape) and rng.random() < 0.75:
+            return ["R", rng.choice(pool[shape])]        # a live object of the history
         ws = st["grid"]
         dy = rng.random() < 0.3
         data = []
@@ -392,6 +561,8 @@ class C09(Family):
                 ents.append([num, den])
             return ["LT", p, m, dt, ents]
         ns = rng.choice([0, 1, 1, 2])
+        if st.get("lti_cheap") and p * m > 4:
+            ns = min(ns, 1)      # (histories) the model's 3x3 response of a 2-state system costs seconds
         if dt in ("C", "N"):
             # A = -(L L^T + I)-like: negative definite symmetric part -> no imaginary-axis eigenvalues
             A = [[0] * ns for _ in range(ns)]
@@ -421,10 +592,17 @@ class C09(Family):
         """an operand of the given shape: FRD subtree, LTI, or array"""
         r = rng.random()
         if "L" in kinds and r < 0.22:
-            return self.lti(rng, shape, st)
+            return self.pooled(rng, st, "L", shape) or self.lti(rng, shape, st)
         if "A" in kinds and r < 0.32:
-            return self.array(rng, shape)
+            return self.pooled(rng, st, "A", shape) or self.array(rng, shape)
         return self.gen(rng, d, shape, st)
+
+    def pooled(self, rng, st, kind, shape):
+        """a live non-FRD object (array / LTI system) of the history, when there is one"""
+        have = (st.get("opool") or {}).get((kind, shape))
+        if have and rng.random() < 0.7:
+            return ["R", rng.choice(have)]
+        return None
 
     def gen(self, rng, depth, shape, st):
         """FRD-valued tree of the requested shape (mostly valid)"""
@@ -615,6 +793,116 @@ class C09(Family):
         x = self.lti(rng, (1, 1), st)
         return {"tree": ["div", x, self.frd_leaf(rng, (1, 1), st)], "eval": None}
 
+    def history(self, rng, tier):
+        """objects made once, then 3-7 operator calls on the live objects: the same object on
+        either side / on both sides / as feedback path with either sign, calls repeated verbatim,
+        results of earlier calls as operands, eval requests and `op=` in between"""
+        st0 = self.new_state(rng, grid=self.rgrid(rng, rng.choice([2, 2, 3, 3, 4, 5])))
+        st0["lti_cheap"] = True
+        p, m = self.rshape(rng)
+        shapes = [(p, m), (m, p), (1, 1)]
+        if rng.random() < 0.5:
+            shapes.append((p, p))
+        if rng.random() < 0.5:
+            shapes.append((m, m))
+        if rng.random() < 0.3:
+            shapes.append(self.rshape(rng))
+        objs, pool, opool = [], {}, {}
+        for sh in shapes:
+            for _ in range(rng.choice([1, 1, 2]) if len(objs) < 7 else 1):
+                pool.setdefault(sh, []).append(len(objs))
+                objs.append({"leaf": self.frd_leaf(rng, sh, st0), "copy_of": None})
+        if rng.random() < 0.3:
+            i = rng.randrange(len(objs))
+            l = objs[i]["leaf"]
+            pool[(l[1], l[2])].append(len(objs))
+            objs.append({"leaf": list(l), "copy_of": i})
+        for sh in ((m, p), (1, 1), (p, m)):
+            if rng.random() < 0.4:
+                opool.setdefault(("A", sh), []).append(len(objs))
+                objs.append({"leaf": self.array(rng, sh), "copy_of": None})
+            if rng.random() < 0.3:
+                opool.setdefault(("L", sh), []).append(len(objs))
+                objs.append({"leaf": self.lti(rng, sh, st0), "copy_of": None})
+        st = dict(st0, pool=pool, opool=opool)
+        nobj = len(objs)
+        steps = []
+        frds = lambda: [i for l in pool.values() for i in l]
+        # one object that receives many calls with different arguments, one that is the argument of
+        # many calls with different receivers (state kept on / written to either would show)
+        hr, ha = rng.choice(pool[(p, m)]), rng.choice(pool[(m, p)])
+        fbsign = lambda: rng.choice(["-1", "-1", "1", "1", "1", "2", "-1/2"])
+        for j in range(rng.choice([3, 4, 4, 5, 6] if tier == "quick" else [3, 4, 5, 6, 7])):
+            r = rng.random()
+            plain = [k for k, sp in enumerate(steps) if not sp["eval"]]
+            if plain and r < 0.15:
+                k = rng.choice(plain)                     # the same call again
+                steps.append({"tree": steps[k]["tree"], "eval": None, "shape": steps[k].get("shape")})
+            elif plain and r < 0.22 and any(steps[k]["tree"][0] == "fb" for k in plain):
+                k = rng.choice([k for k in plain if steps[k]["tree"][0] == "fb"])
+                t = list(steps[k]["tree"])                # the same loop with another sign
+                t[1] = rng.choice([x for x in ("1", "-1", "2", "-1/2") if x != t[1]])
+                steps.append({"tree": t, "eval": None, "shape": steps[k].get("shape")})
+            elif r < 0.5:
+                k = rng.choice([1, 2, 3])
+                c = rng.random()
+                if c < 0.4:
+                    t, sh = ["fb", fbsign(), rng.choice(["method", "func"]), ["R", hr],
+                             self.other(rng, 0, (m, p), st)], (p, m)
+                elif c < 0.6:
+                    t, sh = ["mul", ["R", hr], self.other(rng, 0, (m, k), st)], (p, k)
+                elif c < 0.7:
+                    t, sh = ["mul", self.other(rng, 0, (k, p), st), ["R", hr]], (k, m)
+                elif c < 0.9:
+                    b = self.other(rng, 0, (p, m), st) if rng.random() < 0.7 else self.scalar(rng)
+                    t, sh = [rng.choice(["add", "sub"]), ["R", hr], b], (p, m)
+                else:
+                    t, sh = ["div", ["R", hr], self.other(rng, 0, (1, 1), st, "FL")], (p, m)
+                steps.append({"tree": t, "eval": None, "shape": sh})
+            elif r < 0.62:
+                k = rng.choice([1, 2, 3])
+                c = rng.random()
+                if c < 0.5:
+                    t, sh = ["fb", fbsign(), rng.choice(["method", "func"]),
+                             self.gen(rng, rng.choice([0, 0, 1]), (p, m), st), ["R", ha]], (p, m)
+                elif c < 0.7:
+                    t, sh = ["mul", self.other(rng, 0, (k, m), st), ["R", ha]], (k, p)
+                elif c < 0.8:
+                    t, sh = ["mul", ["R", ha], self.other(rng, 0, (p, k), st)], (m, k)
+                else:
+                    t, sh = [rng.choice(["add", "sub"]), self.other(rng, 0, (m, p), st), ["R", ha]], (m, p)
+                steps.append({"tree": t, "eval": None, "shape": sh})
+            elif r < 0.72:
+                t = ["R", rng.choice(frds())] if rng.random() < 0.7 else \
+                    self.gen(rng, 1, rng.choice(list(pool)), st)
+                steps.append({"tree": t, "eval": self.eval_request(rng, st["grid"]), "shape": None})
+            elif r < 0.8:
+                sh = rng.choice(list(pool))               # x op= y on a temporary x
+                op = rng.choice(["iadd", "isub", "imul", "idiv"] if sh == (1, 1) else ["iadd", "isub", "imul"])
+                a = self.gen(rng, 1, sh, st)
+                if a[0] == "R":
+                    a = ["neg", a]
+                if op == "imul":
+                    b = self.other(rng, 0, (sh[1], sh[1]), st) if rng.random() < 0.7 else self.scalar(rng)
+                elif op == "idiv":
+                    b = self.other(rng, 0, (1, 1), st, "FL") if rng.random() < 0.6 else self.scalar(rng, True)
+                else:
+                    b = self.other(rng, 0, sh, st) if rng.random() < 0.7 else self.scalar(rng)
+                steps.append({"tree": [op, a, b], "eval": None, "shape": sh})
+            else:
+                sh = rng.choice(list(pool))
+                steps.append({"tree": self.gen(rng, rng.choice([1, 1, 2]), sh, st), "eval": None, "shape": sh})
+            sh = steps[-1].pop("shape")
+            if sh is not None:
+                steps[-1]["shape"] = sh
+            # later calls may use the result (its expected shape: the requested one)
+            if not steps[-1]["eval"] and sh is not None and rng.random() < 0.6 and \
+                    size(resolve(steps[-1]["tree"], objs, steps)) <= 14:
+                pool.setdefault(tuple(sh), []).append(nobj + j)
+        for sp in steps:
+            sp.pop("shape", None)
+        return {"hist": {"objs": objs, "steps": steps}}
+
     def generate(self, rng, tier):
         n = 1000 if tier == "quick" else 15000
         maxd = 3 if tier == "quick" else 4
@@ -631,6 +919,9 @@ class C09(Family):
                 out.append({"tree": t, "eval": self.eval_request(rng, st["grid"])})
                 continue
             out.append({"tree": self.gen(rng, depth, self.rshape(rng), st), "eval": None})
+        # histories over live objects (after the trees: the tree stream of a seed is unchanged)
+        for i in range(160 if tier == "quick" else 1600):
+            out.append(self.history(rng, tier))
         return out
 
     def corpus(self):
@@ -648,10 +939,49 @@ class C09(Family):
             {"tree": ["pow", 1, M], "eval": None},                               # M**1 != M
             {"tree": ["div", ["S", "2", "0", "int"], M], "eval": None},          # entrywise reciprocal
             {"tree": ["mul", M, ["sel", [1, 0], [0, 1], M]], "eval": None},      # non-commuting product
+            # histories on live objects: the same feedback path twice, one object on both sides
+            {"hist": {"objs": [{"leaf": g, "copy_of": None}, {"leaf": F([("1", "0"), ("0", "1"), ("1/2", "0")]),
+                                                               "copy_of": None}],
+                      "steps": [{"tree": ["fb", "1", "method", ["R", 0], ["R", 1]], "eval": None},
+                                {"tree": ["fb", "1", "method", ["R", 0], ["R", 1]], "eval": None},
+                                {"tree": ["fb", "-1", "func", ["R", 2], ["R", 1]], "eval": None}]}},
+            {"hist": {"objs": [{"leaf": M, "copy_of": None}],
+                      "steps": [{"tree": ["fb", "1", "method", ["R", 0], ["R", 0]], "eval": None},
+                                {"tree": ["mul", ["R", 0], ["R", 0]], "eval": None},
+                                {"tree": ["sub", ["R", 2], ["R", 0]], "eval": None}]}},
         ]
 
     # ---- execution ----------------------------------------------------------
+    def hist_line(self, h):
+        """one `frdhist` line: the objects, then the steps (flag T: also executed as a model
+        `Step` by `stepE` — the function of the history theorems — and compared)"""
+        objs = []
+        for o in h["objs"]:
+            l = o["leaf"]
+            if o.get("copy_of") is not None:
+                l = ["F", l[1], l[2], 0] + list(l[4:])
+            objs.append(l)
+        ls = list(objs)
+        for sp in h["steps"]:
+            ls += leaves(sp["tree"])
+        tab = expj_from_leaves(ls)
+        steps = []
+        for sp in h["steps"]:
+            ev = sp.get("eval")
+            # (a loop around a wide LTI response is slow in the untabulated evaluator)
+            wide = any(l[0] in ("LT", "LS") and l[1 if l[0] == "LT" else 2] * l[2 if l[0] == "LT" else 3] > 4
+                       for l in leaves(resolve(sp["tree"], h["objs"], h["steps"])))
+            f = "T" if not ev and xcost(sp["tree"]) <= 5000 and not (wide and "fb" in ops_in(sp["tree"])) else "N"
+            x = f + " " + flatten(sp["tree"])
+            if ev:
+                x += " eval %d %s" % (len(ev["ws"]), " ".join(ev["ws"]))
+            steps.append(x)
+        return "frdhist X %d %s %d %s %s" % (len(tab), " ".join(tab), len(objs),
+                                             " ".join(flatten(l) for l in objs), " ; ".join(steps))
+
     def line(self, case):
+        if "hist" in case:
+            return self.hist_line(case["hist"])
         tab = expj_table(case["tree"])
         ev = case.get("eval")
         # `frdtree` = `frd` + cross-check of the postfix interpreter against Expr.evalModel (the
@@ -662,10 +992,84 @@ class C09(Family):
             s += " eval %d %s" % (len(ev["ws"]), " ".join(ev["ws"]))
         return s
 
-    def impl(self, case):
+    def impl_hist(self, h):
+        """run the history on LIVE objects: every object is made once; after every call every
+        object that exists (also the arrays handed to the constructors) must still hold the bytes
+        it held when it was made"""
+        keep, live, frozen = [], [], []
+        omegas = {}
         try:
-            r = run_tree(case["tree"])
-            ev = case.get("eval")
+            for o in h["objs"]:
+                l = o["leaf"]
+                if o.get("copy_of") is not None:
+                    x = ct.FrequencyResponseData(live[o["copy_of"]])
+                elif l[0] == "F":
+                    # one frequency vector for all objects on the grid, as a user would write it
+                    w = omegas.setdefault(tuple(l[5]), np.array([float(Fraction(v)) for v in l[5]]))
+                    if not any(w is k[0] for k in keep):
+                        keep.append((w, w.copy()))
+                    x = build_frd(l, omega=w, keep=keep)
+                else:
+                    x = run_node(l)
+                live.append(x)
+                frozen.append(freeze(x))
+        except Exception as e:  # noqa
+            return {"err": classify_exc(e), "exc": "%s: %s" % (type(e).__name__, str(e)[:200]), "stage": "build"}
+        out = {"steps": [], "mutated": None}
+        nobj = len(live)
+        for j, sp in enumerate(h["steps"]):
+            if any(live[i] is None for i in refs_in(sp["tree"])):
+                out["steps"].append({"skip": True})
+                live.append(None)
+                frozen.append(None)
+                continue
+            res, r = self.impl_tree(sp["tree"], sp.get("eval"), live)
+            out["steps"].append(res)
+            # what the calls before left behind must not have been written to
+            for i, (x, fz) in enumerate(zip(live, frozen)):
+                if x is None:
+                    continue
+                try:
+                    what = first_change(fz, freeze(x))
+                except Exception as e:  # noqa  (the object cannot even be read any more)
+                    what = "unreadable:" + type(e).__name__
+                if what:
+                    kind = h["objs"][i]["leaf"][0] if i < nobj else "result"
+                    if i < nobj and h["objs"][i].get("copy_of") is not None:
+                        kind = "copy"
+                    out["mutated"] = {"step": j, "obj": i, "objkind": kind, "what": what}
+                    break
+            if out["mutated"] is None:
+                for (u, u0) in keep:
+                    if u.shape != u0.shape or u.tobytes() != u0.tobytes():
+                        out["mutated"] = {"step": j, "obj": -1, "objkind": "user-array", "what": "array"}
+                        break
+            if out["mutated"] is not None:
+                break
+            ok = (sp.get("eval") is None and isinstance(r, ct.FrequencyResponseData)
+                  and res.get("ok", {}).get("type") == "frd")
+            live.append(r if ok else None)
+            frozen.append(freeze(r) if ok else None)
+        return out
+
+    def impl(self, case):
+        if "hist" in case:
+            return self.impl_hist(case["hist"])
+        return self.impl_tree(case["tree"], case.get("eval"))[0]
+
+    def impl_tree(self, tree, ev, env=None):
+        """(canonical result, the object returned)"""
+        self._last = None
+        try:
+            res = self.impl_tree0(tree, ev, env)
+        except SkipStep:
+            return {"skip": True}, None
+        return res, self._last
+
+    def impl_tree0(self, tree, ev, env):
+        try:
+            r = run_tree(tree, env)
+            self._last = r
             if ev is not None and isinstance(r, ct.FrequencyResponseData) and \
                     not np.all(np.isfinite(r.frdata)):
                 return {"ok": {"type": "nonfinite"}}     # a division by zero somewhere on the grid
@@ -690,6 +1094,8 @@ class C09(Family):
                                "p": r.noutputs, "m": r.ninputs, "data": data}}
         except NonFinite:
             return {"ok": {"type": "nonfinite"}}
+        except SkipStep:
+            raise
         except Exception as e:  # noqa
             return {"err": classify_exc(e), "exc": "%s: %s" % (type(e).__name__, str(e)[:200])}
         try:
@@ -702,6 +1108,14 @@ class C09(Family):
             return {"ok": {"type": "unreadable", "exc": "%s: %s" % (type(e).__name__, str(e)[:100])}}
 
     def parse_model(self, case, out):
+        if "hist" in case:
+            assert out.startswith("ok "), out[:80]
+            parts = out[3:].split(" | ")
+            assert len(parts) == len(case["hist"]["steps"]), out[:80]
+            return {"steps": ["skip" if x.strip() == "skip" else self.parse_one(x.strip()) for x in parts]}
+        return self.parse_one(out)
+
+    def parse_one(self, out):
         if out.startswith("err "):
             return {"err": out.split()[1]}
         tk = Tokens(out)
@@ -778,7 +1192,7 @@ class C09(Family):
             return False
         if any(l[0] == "F" and l[3] for l in leaves(t)) and case.get("eval"):
             return False
-        return not any(o in ("div", "fb", "pow-") for o in ops_in(t))
+        return not any(o in ("div", "idiv", "fb", "pow-") for o in ops_in(t))
 
     def tolerance(self, case, model):
         lo2, hi2 = Fraction(model.get("lo2", "0")), Fraction(model.get("hi2", "0"))
@@ -811,6 +1225,80 @@ class C09(Family):
         return None
 
     def compare(self, case, impl, model):
+        if "hist" in case:
+            return self.compare_hist(case["hist"], impl, model)
+        return self.compare_one(case, impl, model)
+
+    def hist_sub(self, h, j, model):
+        """step j as a stand-alone case (names resolved) and its model answer with the exactness /
+        conditioning proxies of every step whose result it reads"""
+        sp = h["steps"][j]
+        sub = {"tree": resolve(sp["tree"], h["objs"], h["steps"]), "eval": sp.get("eval")}
+        mo = model["steps"][j]
+        if isinstance(mo, dict) and "ok" in mo:
+            mo = dict(mo)
+            for k in sorted(deps_of(j, h, {})):
+                d = model["steps"][k]
+                if isinstance(d, dict) and "bits" in d:
+                    mo["bits"] = max(mo["bits"], d["bits"])
+                    mo["hi2"] = tok(max(Fraction(mo["hi2"]), Fraction(d["hi2"])))
+                    los = [Fraction(x) for x in (mo["lo2"], d["lo2"]) if Fraction(x) > 0]
+                    mo["lo2"] = tok(min(los)) if los else "0"
+        return sub, mo
+
+    def reuse_class(self, h, j):
+        """how step j uses live objects: alias (one object twice in the call) | reused (an object
+        an earlier call has used) | result (the result of an earlier call) | first"""
+        mine = refs_in(h["steps"][j]["tree"])
+        before = {i for sp in h["steps"][:j] for i in refs_in(sp["tree"])}
+        if len(mine) != len(set(mine)):
+            return "alias"
+        if any(i >= len(h["objs"]) for i in mine):
+            return "result"
+        if any(i in before for i in mine):
+            return "reused"
+        return "first" if mine else "none"
+
+    def compare_hist(self, h, impl, model):
+        if "err" in impl:
+            return Verdict(VIOLATES, "making the objects raises %s" % impl["exc"],
+                           {"kind": "build-raises", "exc": impl["exc"].split(":")[0],
+                            "msg": norm_msg(impl["exc"].split(":", 1)[1])})
+        for j, sp in enumerate(h["steps"]):
+            if j >= len(impl["steps"]):
+                break                                   # stopped at a modified operand (below)
+            mo = model["steps"][j]
+            im = impl["steps"][j]
+            if mo == "skip":
+                continue
+            if im.get("skip"):
+                return Verdict(DIFFERS, "step %d: an operand exists in the model only" % j,
+                               {"kind": "harness-skip"})
+            sub, mo = self.hist_sub(h, j, model)
+            v = self.compare_one(sub, im, mo)
+            if v.status != AGREE:
+                feat = dict(v.features, history=self.reuse_class(h, j))
+                return Verdict(v.status, "step %d of the history (%s): %s" % (
+                    j, canon_step(sp), v.detail), feat)
+        mt = impl.get("mutated")
+        if mt:
+            sp = h["steps"][mt["step"]]
+            role = "other"
+            t = sp["tree"]
+            names = refs_in(t)
+            if mt["obj"] in names:
+                role = "operand"
+                if t[0] == "fb" and t[4] == ["R", mt["obj"]]:
+                    role = "feedback-path"
+                elif t[0] not in LEAVES and any(t[i] == ["R", mt["obj"]] for i in children(t)):
+                    role = "operand-%d" % [i for i in children(t) if t[i] == ["R", mt["obj"]]][0]
+            return Verdict(VIOLATES, "step %d of the history (%s) modified the %s of object %d (%s, %s): "
+                           "an operator call must leave its operands as they were" % (
+                               mt["step"], canon_step(sp), mt["what"], mt["obj"], mt["objkind"], role),
+                           {"kind": "operand-modified", "what": mt["what"], "objkind": mt["objkind"]})
+        return Verdict(AGREE)
+
+    def compare_one(self, case, impl, model):
         self._worst = 0.0
         t = case["tree"]
         if "err" in model:
@@ -821,6 +1309,9 @@ class C09(Family):
                 return Verdict(AGREE)
             if me == "illPosed" or (me == "zeroDen" and any(l[0] in ("LT", "LS") for l in leaves(t))):
                 # exactly singular loop / pole on the grid: LAPACK need not detect it in floating point
+                return Verdict(AGREE)
+            if me == "zeroDen" and inexact_divisor(t):
+                # the divisor is a computed quantity whose exact zero is a rounding residue in floats
                 return Verdict(AGREE)
             return Verdict(VIOLATES, "a result was returned where none exists (model: %s)" % me,
                            self.features(case, "returns-" + me, impl))
@@ -871,6 +1362,16 @@ class C09(Family):
         return Verdict(AGREE)
 
     def nontrivial(self, case, model):
+        if "hist" in case:
+            # an object is used by at least two calls (or twice in one), and some call with a
+            # binary operator / feedback returns
+            h = case["hist"]
+            names = [i for sp in h["steps"] for i in refs_in(sp["tree"])]
+            if len(names) == len(set(names)):
+                return False
+            return any(isinstance(mo, dict) and "ok" in mo and
+                       any(o in BIN or o == "fb" for o in ops_in(sp["tree"]))
+                       for sp, mo in zip(h["steps"], model.get("steps", [])))
         t = case["tree"]
         if "ok" not in model:
             return False
@@ -880,6 +1381,20 @@ class C09(Family):
         return bool(case.get("eval")) or any(o in BIN or o == "fb" for o in ops_in(t))
 
     def stats(self, case, impl, model):
+        if "hist" in case:
+            h = case["hist"]
+            st = {"root": "history", "hist_steps": len(h["steps"]), "hist_objs": min(len(h["objs"]), 12)}
+            for j, sp in enumerate(h["steps"]):
+                mo = model.get("steps", [None] * (j + 1))[j] if "steps" in model else None
+                if mo == "skip":
+                    st["hist_skip"] = "some"
+                    continue
+                st["hist_use_" + self.reuse_class(h, j)] = "some"
+                if sp["tree"][0] == "fb" and sp["tree"][4][0] == "R" and Fraction(sp["tree"][1]) > 0:
+                    st["hist_posfb_live_path"] = "some"
+            kinds = {("copy" if o.get("copy_of") is not None else o["leaf"][0]) for o in h["objs"]}
+            st["operands"] = "+".join(sorted(kinds))
+            return st
         t = case["tree"]
         st = {"root": t[0], "size": min(size(t), 12), "grid": grid_kind(t),
               "outcome": ("err:" + model["err"]) if "err" in model else "ok"}
@@ -910,7 +1425,55 @@ class C09(Family):
         return st
 
     # ---- shrinking / search ----------------------------------------------------
+    def shrink_hist(self, h):
+        objs, steps = h["objs"], h["steps"]
+        nobj = len(objs)
+
+        def renum(t, gone):
+            return map_tree(t, lambda l: ["R", l[1] - (1 if l[1] > gone else 0)] if l[0] == "R" else l)
+
+        def used(i, skip=None):
+            return any(i in refs_in(sp["tree"]) for k, sp in enumerate(steps) if k != skip) or \
+                any(o.get("copy_of") == i for o in objs)
+        # keep a prefix of the steps
+        for k in range(1, len(steps)):
+            yield {"hist": {"objs": objs, "steps": steps[:k]}}
+        # drop one step whose result nobody reads
+        for k in range(len(steps)):
+            if not used(nobj + k):
+                rest = [dict(sp, tree=renum(sp["tree"], nobj + k)) for j, sp in enumerate(steps) if j != k]
+                if rest:
+                    yield {"hist": {"objs": objs, "steps": rest}}
+        # drop one object nobody reads
+        for i in range(nobj):
+            if not used(i):
+                o2 = [dict(o, copy_of=(o["copy_of"] - 1 if o.get("copy_of") is not None and o["copy_of"] > i
+                                       else o.get("copy_of"))) for j, o in enumerate(objs) if j != i]
+                yield {"hist": {"objs": o2, "steps": [dict(sp, tree=renum(sp["tree"], i)) for sp in steps]}}
+        # a step becomes one of its operands
+        for k, sp in enumerate(steps):
+            t = sp["tree"]
+            if t[0] not in LEAVES:
+                for i in children(t):
+                    if t[i][0] not in ("S", "A", "LT", "LS"):
+                        yield {"hist": {"objs": objs, "steps": steps[:k] + [dict(sp, tree=t[i])] + steps[k + 1:]}}
+        # one grid point less, everywhere
+        fl = [o["leaf"] for o in objs if o["leaf"][0] == "F"] + \
+             [l for sp in steps for l in leaves(sp["tree"]) if l[0] == "F"]
+        if fl and all(len(l[5]) == len(fl[0][5]) for l in fl) and len(fl[0][5]) > 2 and \
+                not any(sp.get("eval") for sp in steps):
+            def cut(l):
+                if l[0] != "F":
+                    return l
+                n = len(l[5]) - 1
+                return ["F", l[1], l[2], l[3] if n >= 2 else 0, l[4], l[5][:n], l[6][:n * l[1] * l[2]]]
+            yield {"hist": {"objs": [dict(o, leaf=cut(o["leaf"])) for o in objs],
+                            "steps": [dict(sp, tree=map_tree(sp["tree"], cut)) for sp in steps]}}
+
     def shrink(self, case):
+        if "hist" in case:
+            yield from self.shrink_hist(case["hist"])
+            return
         t = case["tree"]
         ev = case.get("eval")
 
